@@ -464,6 +464,13 @@ func ObjectRouting(p *core.Prog, r *core.Report) {
 		return
 	}
 	recvT := core.NamedOf(entry.Signature.Recv().Type())
+	fProps := keywordFieldOf(p, "newObjectValidator", "Properties")
+	fPat := keywordFieldOf(p, "newObjectValidator", "PatternProperties")
+	fAdd := keywordFieldOf(p, "newObjectValidator", "AdditionalProperties")
+	if fProps == "" || fPat == "" || fAdd == "" {
+		r.Unk(rule, "object:keyword-fields", p.Pos(entry.Pos()), "cannot resolve the fields of the object validator that hold properties / patternProperties / additionalProperties")
+		return
+	}
 	// the pattern matcher: the method of the type that ranges over recv.PatternProperties and validates its
 	// own value parameter with a schema validator built inside that range
 	var matcher *ssa.Function
@@ -474,7 +481,7 @@ func ObjectRouting(p *core.Prog, r *core.Report) {
 		rangesPatterns, validatesParam := false, false
 		core.EachInstr(f, func(i ssa.Instruction) {
 			if rg, ok := i.(*ssa.Range); ok {
-				if pth, ok := core.StablePath(rg.X); ok && strings.HasSuffix(pth, ".PatternProperties") {
+				if pth, ok := core.StablePath(rg.X); ok && strings.HasSuffix(pth, "."+fPat) {
 					rangesPatterns = true
 				}
 			}
@@ -513,7 +520,7 @@ func ObjectRouting(p *core.Prog, r *core.Report) {
 				interesting[f] = true
 			}
 			for _, a := range c.Call.Args {
-				if pth, ok := core.StablePath(a); ok && strings.HasSuffix(pth, "AdditionalProperties.Schema") {
+				if pth, ok := core.StablePath(a); ok && strings.HasSuffix(pth, fAdd+".Schema") {
 					interesting[f] = true
 				}
 			}
@@ -537,7 +544,7 @@ func ObjectRouting(p *core.Prog, r *core.Report) {
 	rt := &router{p: p, recvType: recvT, primitive: map[*ssa.Function]string{matcher: "PATTERNS"}, relevant: func(g *ssa.Function) bool { return interesting[g] }}
 	const K, V = "K(arg1)", "V(arg1)"
 	patEvent := "PATTERNS(" + K + "," + V + ")"
-	addEvent := "VALIDATE[recv.AdditionalProperties.Schema](" + V + ")"
+	addEvent := "VALIDATE[recv." + fAdd + ".Schema](" + V + ")"
 	nRuns, nNormal := 0, 0
 	var missPat, missAdd, missForbid, spuriousForbid, aborted []string
 	config := func(run *routeRun) string {
@@ -586,10 +593,10 @@ func ObjectRouting(p *core.Prog, r *core.Report) {
 		// additionalProperties as a schema: required for a member that is neither declared nor matched
 		enabled := true
 		need := map[string]bool{
-			"has(recv.Properties," + K + ")":                    false,
-			"recv.AdditionalProperties==nil":                    false,
-			"recv.AdditionalProperties.Schema==nil":             false,
-			"recv.AdditionalProperties.Allows":                  true,
+			"has(recv." + fProps + "," + K + ")":                false,
+			"recv." + fAdd + "==nil":                            false,
+			"recv." + fAdd + ".Schema==nil":                     false,
+			"recv." + fAdd + ".Allows":                          true,
 			"ret0:validatePatternProperty(" + K + "," + V + ")": false,
 			"ret1:validatePatternProperty(" + K + "," + V + ")": false,
 		}
@@ -607,12 +614,12 @@ func ObjectRouting(p *core.Prog, r *core.Report) {
 		// additionalProperties: false — an undeclared member that no pattern matches is an error, and only then
 		at := func(a string) (bool, bool) { v, ok := run.atoms[a]; return v, ok }
 		forbidden := false
-		if n, ok := at("recv.AdditionalProperties==nil"); ok && !n {
-			if al, ok := at("recv.AdditionalProperties.Allows"); ok && !al {
+		if n, ok := at("recv." + fAdd + "==nil"); ok && !n {
+			if al, ok := at("recv." + fAdd + ".Allows"); ok && !al {
 				forbidden = true
 			}
 		}
-		regular, regKnown := at("has(recv.Properties," + K + ")")
+		regular, regKnown := at("has(recv." + fProps + "," + K + ")")
 		matchedByPattern := false
 		for a, v := range run.atoms {
 			if strings.HasPrefix(a, "ret0:MatchString(") && v {
@@ -728,6 +735,12 @@ func SliceRouting(p *core.Prog, r *core.Report) {
 		r.Unk(rule, "slice:entry", "-", "(*schemaSliceValidator).Validate not found")
 		return
 	}
+	fItems := keywordFieldOf(p, "newSliceValidator", "Items")
+	fAddI := keywordFieldOf(p, "newSliceValidator", "AdditionalItems")
+	if fItems == "" || fAddI == "" {
+		r.Unk(rule, "slice:keyword-fields", p.Pos(entry.Pos()), "cannot resolve the fields of the array validator that hold items / additionalItems")
+		return
+	}
 	rt := &router{p: p, recvType: core.NamedOf(entry.Signature.Recv().Type()), primitive: map[*ssa.Function]string{}, relevant: func(*ssa.Function) bool { return false }}
 	// record the message constructors of the package as events too
 	type viol struct{ what, cfg string }
@@ -775,43 +788,43 @@ func SliceRouting(p *core.Prog, r *core.Report) {
 		cfg := strings.Join(ks, " ∧ ")
 		// possibly(a, want): the configuration does not contradict atom a == want
 		possibly := func(a string, want bool) bool { v, known := at(a); return !known || v == want }
-		itemsSet := possibly("recv.Items==nil", false)
-		list := itemsSet && possibly("recv.Items.Schema==nil", false)
-		_, tupV, tupKnown := find("0<ret0:len(recv.Items.Schemas)")
+		itemsSet := possibly("recv."+fItems+"==nil", false)
+		list := itemsSet && possibly("recv."+fItems+".Schema==nil", false)
+		_, tupV, tupKnown := find("0<ret0:len(recv." + fItems + ".Schemas)")
 		tuple := itemsSet && (!tupKnown || tupV)
 		tupleSure := tupKnown && tupV
-		if n, known := at("recv.Items==nil"); !known || n {
+		if n, known := at("recv." + fItems + "==nil"); !known || n {
 			tupleSure = false
 		}
 		// items: one schema for every element
-		if v, known := at("recv.Items.Schema==nil"); known && !v {
-			if n, k := at("recv.Items==nil"); k && !n && !hasEv("VALIDATE[recv.Items.Schema](") {
+		if v, known := at("recv." + fItems + ".Schema==nil"); known && !v {
+			if n, k := at("recv." + fItems + "==nil"); k && !n && !hasEv("VALIDATE[recv."+fItems+".Schema](") {
 				viols = append(viols, viol{"items-as-schema: elements are not validated against items", cfg})
 			}
 		}
 		_ = list
 		// tuple: element i against Schemas[i]
-		if tupleSure && !hasEv("VALIDATE[recv.Items.Schemas[") {
+		if tupleSure && !hasEv("VALIDATE[recv."+fItems+".Schemas[") {
 			viols = append(viols, viol{"items-as-tuple: the element at a position inside the tuple is not validated against the schema of that position", cfg})
 		}
 		// additionalItems
 		_, moreV, moreKnown := find("<ret0:Len(")
-		addSet, addKnown := at("recv.AdditionalItems==nil")
+		addSet, addKnown := at("recv." + fAddI + "==nil")
 		addPresent := addKnown && !addSet
 		more := moreKnown && moreV
-		if v, known := at("recv.AdditionalItems.Schema==nil"); known && !v && addPresent && more && tupleSure {
-			if !hasEv("VALIDATE[recv.AdditionalItems.Schema](") {
+		if v, known := at("recv." + fAddI + ".Schema==nil"); known && !v && addPresent && more && tupleSure {
+			if !hasEv("VALIDATE[recv." + fAddI + ".Schema](") {
 				viols = append(viols, viol{"additionalItems-as-schema: an element beyond the tuple is not validated against additionalItems", cfg})
 			}
 		}
-		if hasEv("VALIDATE[recv.AdditionalItems.Schema](") && !(addPresent && tuple) {
+		if hasEv("VALIDATE[recv."+fAddI+".Schema](") && !(addPresent && tuple) {
 			viols = append(viols, viol{"additionalItems applied although there is no tuple (it only constrains the elements following a tuple)", cfg})
 		}
-		if al, known := at("recv.AdditionalItems.Allows"); known && !al && addPresent && more && tupleSure && !hasEv("MSG[arrayDoesNotAllowAdditionalItemsMsg]") {
+		if al, known := at("recv." + fAddI + ".Allows"); known && !al && addPresent && more && tupleSure && !hasEv("MSG[") {
 			viols = append(viols, viol{"additionalItems:false: an element beyond the tuple is not rejected", cfg})
 		}
-		if hasEv("MSG[arrayDoesNotAllowAdditionalItemsMsg]") {
-			al, known := at("recv.AdditionalItems.Allows")
+		if hasEv("MSG[") {
+			al, known := at("recv." + fAddI + ".Allows")
 			if !(addPresent && more && tuple && known && !al) {
 				viols = append(viols, viol{"'additional items not allowed' is raised although additionalItems allows them, there is no tuple, or there is no element beyond it", cfg})
 			}
@@ -845,4 +858,30 @@ func SliceRouting(p *core.Prog, r *core.Report) {
 			r.Bad(rule, "slice:"+names[k], p.Pos(entry.Pos()), fmt.Sprintf("in %d configurations: %s", n, hit))
 		}
 	}
+}
+
+// keywordFieldOf: the field of the sub-validator built by ctor that receives the schema keyword specField
+// (resolved from the constructor call in the package, so that a rename of the validator's field is followed).
+func keywordFieldOf(p *core.Prog, ctor, specField string) string {
+	g := p.Func(ctor)
+	if g == nil {
+		return ""
+	}
+	found := ""
+	for _, f := range p.Funcs {
+		core.EachInstr(f, func(i ssa.Instruction) {
+			c, ok := i.(*ssa.Call)
+			if !ok || core.StaticCallee(c) != g {
+				return
+			}
+			for k, a := range c.Call.Args {
+				if pth, ok := core.StablePath(a); ok && strings.HasSuffix(pth, "."+specField) {
+					if fs := ctorParamFields(g, k); len(fs) == 1 {
+						found = fs[0]
+					}
+				}
+			}
+		})
+	}
+	return found
 }
